@@ -359,7 +359,12 @@ pub fn gen_stack(rng: &mut Rng, depth: u32) -> Prog {
 pub const WIDE_ALPHA: [&str; 6] = ["€", "\u{d7ff}", "\u{ffff}", "😀", "\u{40000}", "\u{10ffff}"];
 pub fn gen_input(rng: &mut Rng, maxlen: u64) -> String {
     let n = rng.range(0, maxlen);
-    // one input in six also draws from the wide characters
+    (0..n).map(|_| INPUT_ALPHA[rng.weighted(&[5, 4, 2, 1])]).collect()
+}
+/// as gen_input, but one input in six also draws from the wide characters (only for streams that do not compare `{:?}` output:
+/// Rust's Debug escapes unassigned code points and non-characters, which the printers of the models do not reproduce)
+pub fn gen_input_wide(rng: &mut Rng, maxlen: u64) -> String {
+    let n = rng.range(0, maxlen);
     let wide = rng.chance(1, 6);
     (0..n).map(|_| if wide && rng.chance(1, 3) { WIDE_ALPHA[rng.below(6) as usize] } else { INPUT_ALPHA[rng.weighted(&[5, 4, 2, 1])] }).collect()
 }
